@@ -140,6 +140,213 @@ class ArgList:
         return None
 
 
+
+# ----------------------------------------------------------------------------------------------- heap tracer (Coq side)
+# Observes the Python object graph of every live tensor / argument (identity of Tensor, list, torch.Tensor, storage
+# objects; _version counters; contents) and derives, per step, the primitive events of the heap model
+# (coq/theories/Model/Heap.v): Alloc / Write / Rebind / NewObject.  Raw attribute reads only - no tntorch call.
+
+K_NONE, K_TENSOR, K_LIST, K_TORCH, K_STORAGE, K_ARGLIST, K_NDARRAY = 0, 1, 2, 3, 4, 5, 6
+NONE_CELL = 1
+
+
+def storage_bytes(p):
+    st = p.untyped_storage()
+    if st.nbytes() == 0:
+        return b""
+    return torch.empty(0, dtype=torch.uint8).set_(st).numpy().tobytes()
+
+
+def np_base(a):
+    while isinstance(getattr(a, "base", None), np.ndarray):
+        a = a.base
+    return a
+
+
+class Tracer:
+    def __init__(self):
+        self.ids = {}; self.keep = []; self.nodes = {}; self.vers = {}; self.pays = {}
+        self.steps = []                      # emitted trace: dicts {cls, tgt, evs, res, chg}
+        self.pending = []                    # events of argument registrations of the current step
+        self.ids[("none",)] = NONE_CELL
+        self.nodes[NONE_CELL] = (K_NONE, 0, ())
+        self.pending.append(("A", NONE_CELL, K_NONE, 0, ()))
+
+    def cell(self, key, obj):
+        c = self.ids.get(key)
+        if c is None:
+            c = len(self.ids) + 1
+            self.ids[key] = c
+            self.keep.append(obj)            # ids / addresses are never recycled while the history runs
+        return c
+
+    def payid(self, b):
+        k = self.pays.get(b)
+        if k is None:
+            k = len(self.pays) + 1
+            self.pays[b] = k
+        return k
+
+    # ---- scanning
+    def scan_torch(self, p, out, vers):
+        c = self.cell(("t", id(p)), p)
+        if c in out:
+            return c
+        ptr = p.untyped_storage().data_ptr()
+        sc = self.cell(("s", ptr) if ptr else ("s0", id(p)), p)
+        meta = (tuple(p.shape), tuple(p.stride()), p.storage_offset(), str(p.dtype))
+        out[c] = (K_TORCH, self.payid(repr(meta).encode()), (sc,))
+        if sc not in out:
+            out[sc] = (K_STORAGE, self.payid(storage_bytes(p)), ())
+        vers[c] = (p._version, sc)
+        return c
+
+    def scan_numpy(self, a, out, vers):
+        c = self.cell(("a", id(a)), a)
+        if c in out:
+            return c
+        b = np_base(a)
+        ptr = b.ctypes.data
+        sc = self.cell(("s", ptr) if ptr else ("s0", id(a)), b)
+        meta = (tuple(a.shape), tuple(a.strides), a.ctypes.data - ptr, str(a.dtype))
+        out[c] = (K_NDARRAY, self.payid(repr(meta).encode()), (sc,))
+        if sc not in out:
+            out[sc] = (K_STORAGE, self.payid(np.ascontiguousarray(b).tobytes()), ())
+        return c
+
+    def scan_tensor(self, t, out, vers):
+        r = self.cell(("T", id(t)), t)
+        if r in out:
+            return r
+        lc = self.cell(("L", id(t.cores)), t.cores); lu = self.cell(("L", id(t.Us)), t.Us)
+        out[r] = (K_TENSOR, 0, (lc, lu))
+        for L, lcell in ((t.cores, lc), (t.Us, lu)):
+            if lcell not in out:
+                out[lcell] = (K_LIST, 0, tuple(NONE_CELL if q is None else self.scan_torch(q, out, vers) for q in L))
+        return r
+
+    def scan_arglist(self, L, out, vers):
+        c = self.cell(("AL", id(L)), L)
+        if c in out:
+            return c
+        refs = []; toks = []
+        for x in L:
+            if x is None:
+                refs.append(NONE_CELL)
+            elif isinstance(x, torch.Tensor):
+                refs.append(self.scan_torch(x, out, vers))
+            elif isinstance(x, np.ndarray):
+                refs.append(self.scan_numpy(x, out, vers))
+            elif isinstance(x, (list, tuple)):
+                refs.append(self.scan_arglist(x, out, vers))
+            elif isinstance(x, tn.Tensor):
+                toks.append(("T", self.cell(("T", id(x)), x)))      # identity only: the list holds the object, not its value
+            else:
+                toks.append(repr(x))
+        out[c] = (K_ARGLIST, self.payid(repr(toks).encode()), tuple(refs))
+        return c
+
+    def scan(self, obj, out, vers):
+        if isinstance(obj, tn.Tensor):
+            return self.scan_tensor(obj, out, vers)
+        if isinstance(obj, torch.Tensor):
+            return self.scan_torch(obj, out, vers)
+        if isinstance(obj, np.ndarray):
+            return self.scan_numpy(obj, out, vers)
+        return self.scan_arglist(obj, out, vers)
+
+    # ---- events
+    def diff(self, out, vers):
+        """events that turn the mirrored model state into the observed one (restricted to the scanned cells)"""
+        allocs = []; writes = []; rebinds = []; written = set()
+        for c, nd in out.items():
+            old = self.nodes.get(c)
+            if old is None:
+                allocs.append(("A", c, nd[0], nd[1], nd[2]))
+            else:
+                if old[1] != nd[1] or old[0] != nd[0]:
+                    writes.append(("W", c, nd[1])); written.add(c)
+                if old[2] != nd[2]:
+                    rebinds.append(("R", c, nd[2]))
+            self.nodes[c] = nd
+        for c, (v, sc) in vers.items():
+            ov = self.vers.get(c)
+            if ov is not None and ov[0] != v and c not in written and sc not in written and ov[1] == sc:
+                writes.append(("W", sc, out[sc][1])); written.add(sc)      # in-place write that left no visible difference
+            self.vers[c] = (v, sc)
+        return allocs + writes + rebinds
+
+    def register(self, obj):
+        """an argument array / list created by the harness: becomes a live root before the operation runs"""
+        out = {}; vers = {}
+        r = self.scan(obj, out, vers)
+        self.pending += self.diff(out, vers) + [("N", r)]
+        return r
+
+    def flush_pending(self):
+        if self.pending:
+            self.steps.append({"cls": "KHarness", "tgt": NONE_CELL, "evs": self.pending, "res": [], "chg": []})
+            self.pending = []
+
+    def root_of(self, t):
+        return self.ids[("T", id(t))]
+
+    def step(self, cls, target, live_objs, results, changed_roots, op=None):
+        self.flush_pending()
+        out = {}; vers = {}
+        for o in live_objs:
+            self.scan(o, out, vers)
+        res = [self.scan(o, out, vers) for o in results]
+        evs = self.diff(out, vers) + [("N", r) for r in res]
+        if evs or changed_roots:
+            self.steps.append({"cls": cls, "tgt": NONE_CELL if target is None else target, "evs": evs, "res": res,
+                               "chg": changed_roots, "op": op})
+
+
+def coq_event(e):
+    if e[0] == "A":
+        return "A %d %d %d [%s]" % (e[1], e[2], e[3], ";".join(map(str, e[4])))
+    if e[0] == "W":
+        return "W %d %d" % (e[1], e[2])
+    if e[0] == "R":
+        return "R %d [%s]" % (e[1], ";".join(map(str, e[2])))
+    return "N %d" % e[1]
+
+
+def coq_step(st):
+    return "St %s %d [%s] [%s] [%s]" % (st["cls"], st["tgt"], ";".join(coq_event(e) for e in st["evs"]),
+                                       ";".join(map(str, st["res"])), ";".join(map(str, st["chg"])))
+
+
+# effect-table class of every operation of the history language (coq/theories/Model/Heap.v, `table`)
+OP_KLASS = {}
+for _o in ["getitem", "getitem_slices", "getitem_index_matrix", "item"]:
+    OP_KLASS[_o] = "KGetitem"
+for _o in ["decompress", "unsqueeze", "squeeze", "unbind", "transpose", "dot_partial"]:
+    OP_KLASS[_o] = "KView"
+for _o in ["clone"]:
+    OP_KLASS[_o] = "KClone"
+OP_KLASS["like"] = "KCreate"
+OP_KLASS["from_dense"] = "KFromDense"
+for _o in ["add", "sub", "mul", "scalar_mul", "scalar_add", "neg", "div", "logic", "reduce"]:
+    OP_KLASS[_o] = "KArith"
+for _o in ["round_tt_copy", "round_tucker_copy", "round_copy"]:
+    OP_KLASS[_o] = "KRoundCopy"
+for _o in ["sobol", "mean_dimension", "dgsm"]:
+    OP_KLASS[_o] = "KSens"
+for _o in ["cross", "elementwise", "minimum"]:
+    OP_KLASS[_o] = "KCross"
+for _o in ["round_tt", "round_tucker", "round", "set_ranks"]:
+    OP_KLASS[_o] = "KRoundIn"
+for _o in ["orthogonalize", "left_orthogonalize", "right_orthogonalize", "factor_orthogonalize"]:
+    OP_KLASS[_o] = "KOrthoIn"
+for _o in ["setitem_scalar", "setitem_dense", "setitem_tensor"]:
+    OP_KLASS[_o] = "KSetitem"
+OP_KLASS["set_factors"] = "KSetFactors"
+OP_KLASS["as_leaf"] = "KLeaf"
+for _o in ["cp_to_tt", "to_cpu"]:
+    OP_KLASS[_o] = "KConvIn"
+
 # ----------------------------------------------------------------------------------------------- run-time arguments
 
 def shp(t):
@@ -826,6 +1033,8 @@ OPCLASS = {k: v[0] for k, v in OPS.items()}
 NEW_OPS = sorted(k for k, v in OPCLASS.items() if v == "new")
 VAL_OPS = sorted(k for k, v in OPCLASS.items() if v == "val")
 INPLACE_OPS = sorted(k for k, v in OPCLASS.items() if v == "inplace")
+for _o, _c in OPCLASS.items():
+    OP_KLASS.setdefault(_o, "KMetric" if _c == "val" else "KCopyTool")
 SLOW_OPS = {"cross", "elementwise", "minimum", "moments", "from_dense", "reduce"}
 # derivations whose result is expected to share storage / be closely related to the source
 DERIVE_OPS = ["getitem_slices", "getitem", "transpose", "clone", "tt", "decompress", "unsqueeze", "squeeze", "add", "sub",
@@ -834,15 +1043,21 @@ DERIVE_OPS = ["getitem_slices", "getitem", "transpose", "clone", "tt", "decompre
 
 
 class Ctx:
-    def __init__(self, a, b, r, args):
-        self.a, self.b, self.r, self._args = a, b, r, args
+    def __init__(self, a, b, r, args, tracer=None):
+        self.a, self.b, self.r, self._args, self._tr = a, b, r, args, tracer
 
     def arr(self, label, obj):
-        self._args.append(ArgArray(label, obj))
+        ar = ArgArray(label, obj)
+        if self._tr is not None:
+            ar.root = self._tr.register(obj)
+        self._args.append(ar)
         return obj
 
     def lst(self, label, obj):
-        self._args.append(ArgList(label, obj))
+        ar = ArgList(label, obj)
+        if self._tr is not None:
+            ar.root = self._tr.register(obj)
+        self._args.append(ar)
         return obj
 
 
@@ -861,9 +1076,9 @@ def frames(case):
 
 class Prop:
     ID = "C14"
-    LEVEL = "exploration"
-    COQ_HEADER = ""
-    CHECK_FN = ""
+    LEVEL = "proof"
+    COQ_HEADER = "From TN Require Import Harness.H_C14.\nOpen Scope positive_scope.\n"
+    CHECK_FN = "check"
     RULE = ("a case is a history over a pool of 1..5 explicit tensors (all format classes) and up to 12 slots: "
             "(i) enumerated aliasing triples: every derivation (slicing, indexing, transpose, clone, tt, "
             "decompress_tucker_factors incl. _clone=False, unsqueeze/squeeze, arithmetic, flip, unbind, partial sums, ttm, cat, "
@@ -877,16 +1092,34 @@ class Prop:
             "(dense value by an independent NumPy contraction of the raw cores, bit patterns, core kinds, factor "
             "presence, shapes/ranks, torch _version counters) and all argument arrays passed so far are compared with "
             "their state before the step. Non-trivial = at least one step executed; distinct = distinct (formats, "
-            "operation sequence, seeds)." % (len(NEW_OPS), len(VAL_OPS), len(OPS)))
+            "operation sequence, seeds). COQ SIDE: for every history the observed effect trace is checked against the heap "
+            "model (Model/Heap.v): before/after each step the Python object graph of every live tensor and every argument "
+            "array/list is scanned (identity of Tensor, list, torch.Tensor and storage objects, view metadata, storage "
+            "bytes, _version counters) and the difference is expressed as Alloc/Write/Rebind/NewObject events; H_C14.check "
+            "requires safe_step (no mutated cell is reachable from a live object other than the in-place target), "
+            "conformance of the events with the effect-table entry of the operation class (sharing of pre-existing cells "
+            "by results only for getitem/view/from-dense classes, Rebind only of the target's own list/Tensor cells for "
+            "in-place classes, Write to a pre-existing cell for no class), and that every object the NumPy observer saw "
+            "change is one whose unfolding changes in the model. Excluded from the Coq side: batch tensors (not generated), "
+            "the idxs lists, requires_grad flags, cells that become unreachable from every live object in the very step "
+            "that mutates them, traces beyond 19 KB (prefix checked; counted as traces_truncated)."
+            % (len(NEW_OPS), len(VAL_OPS), len(OPS)))
     TRUSTED = ["the observer in harness/props/c14.py (raw reads of t.cores/t.Us, NumPy contraction, tobytes comparison)",
                "torch's _version counter as witness of in-place writes",
-               "the table OPCLASS (which operations are documented in-place methods) is the specification of who may change"]
+               "the table OPCLASS (which operations are documented in-place methods) is the specification of who may change",
+               "the heap tracer in harness/props/c14.py (Tracer: id(), untyped_storage().data_ptr(), storage_offset/shape/stride, "
+               "_version, storage bytes; all objects ever seen are kept alive so that ids and addresses are never recycled)",
+               "OP_KLASS (operation -> effect-table class) and the effect table `table` in coq/theories/Model/Heap.v, read off the code of /repo/tntorch",
+               "decompression is a function of the unfolding of the object graph (payloads reachable from the Tensor object) - "
+               "cross-checked at every step: every tensor the independent NumPy observer sees change must change in the model"]
     ASSUMPTIONS = ["histories use the public creation paths (fresh core lists); a Tensor built by the caller from another "
                    "tensor's own list object is outside the property",
                    "non-batch tensors, CPU",
                    "for an in-place step, other tensors are compared by decompressed value (1e-9) only; for pure steps every "
                    "live tensor and every argument array must be bit-identical with unchanged format, ranks and version counters"]
-    THEOREMS = []
+    THEOREMS = ["C14_step_isolation", "C14_pure_operands_unchanged", "C14_history_every_step", "C14_history_isolation",
+                "C14_alloc_newobject_safe", "C14_table_implies_safe", "C14_write_through_shared_cell_visible", "C14_checked_trace_safe",
+                "C14_checked_trace_changes_only_target"]
 
     def __init__(self):
         self.stats = {}
@@ -1004,6 +1237,9 @@ class Prop:
         snaps = [snap(t) for t in pool]
         args = []
         steps = []
+        tr = Tracer()
+        for t in pool:
+            tr.register(t)
         sink = io.StringIO()
         for k, st in enumerate(case["history"]):
             cls, fn = OPS[st["op"]]
@@ -1022,7 +1258,7 @@ class Prop:
                     rec["aliased"] = sum(1 for i, t in enumerate(pool) if t is not None and i != ia and (storages(t) & sa))
                 try:
                     with contextlib.redirect_stdout(sink):
-                        out = fn(Ctx(a, b, random.Random(st["seed"]), args))
+                        out = fn(Ctx(a, b, random.Random(st["seed"]), args, tr))
                     stt["ok"] += 1; self.totals["executed"] += 1
                     if cls == "inplace":
                         self.totals["inplace_executed"] += 1
@@ -1032,6 +1268,7 @@ class Prop:
                 except Exception as e:
                     rec["err"] = type(e).__name__; rec["msg"] = str(e)[:80]; stt["err"] += 1; self.totals["errors"] += 1
             # ---- observe every live tensor and every argument array
+            pool_at_step = list(pool)                 # the observer below drops tensors that became unreadable
             changed = []
             for i, t in enumerate(pool):
                 if t is None:
@@ -1053,8 +1290,10 @@ class Prop:
                 self.totals["arg_checks"] += 1
                 w = ar.changed()
                 if w:
-                    ach.append({"label": ar.label, "what": w})
+                    ach.append({"label": ar.label, "what": w, "root": getattr(ar, "root", None)})
+                    root = getattr(ar, "root", None)
                     ar.__init__(ar.label, ar.obj)
+                    ar.root = root
             rec["args_changed"] = ach
             if cls == "new":
                 keep = None
@@ -1075,8 +1314,19 @@ class Prop:
                 except Exception:
                     pool[-1] = None; snaps.append(None)
                 rec["stored"] = keep is not None
+            # ---- heap trace of this step (Coq correspondence)
+            try:
+                chg = [tr.root_of(pool_at_step[ch["slot"]]) for ch in changed if any(x != "version" for x in ch["kinds"])]
+                chg += [ac["root"] for ac in ach if ac.get("root") is not None and ac["what"] != "version"]
+                livet = [t for t in pool_at_step if t is not None]
+                newt = [pool[-1]] if cls == "new" and pool[-1] is not None else []
+                tr.step(OP_KLASS[st["op"]], tr.root_of(a) if (cls == "inplace" and a is not None) else None,
+                        livet + [ar.obj for ar in args], newt, chg, st["op"])
+            except Exception as e:
+                tr.steps.append({"broken": type(e).__name__ + ": " + str(e)[:80]})
             steps.append(rec)
-        return {"ok": True, "init": init, "init_shape": init_shape, "steps": steps,
+        tr.flush_pending()
+        return {"ok": True, "init": init, "init_shape": init_shape, "steps": steps, "trace": tr.steps,
                 "executed": sum(1 for s in steps if "err" not in s and "skipped" not in s)}
 
     def expected(self, case):
@@ -1121,7 +1371,20 @@ class Prop:
         return "%s;%s" % (case["tags"]["formats"], ",".join("%s:%d:%d:%d" % (h["op"], h["a"], h["b"], h["seed"]) for h in case["history"]))
 
     def coq_term(self, case, res):
-        return None
+        tr = res.get("trace") if res.get("ok") else None
+        if not tr:
+            return None
+        if any("broken" in st for st in tr):
+            return "[St KHarness 1 [W 1 0] [] []]"          # the tracer itself failed: make the comparison fail loudly
+        out = []; size = 0
+        for st in tr:                                       # a prefix of a trace is a trace: stay below the term size cap
+            t = coq_step(st)
+            if size + len(t) > 19000:
+                self.totals["traces_truncated"] = self.totals.get("traces_truncated", 0) + 1
+                break
+            out.append(t); size += len(t) + 1
+        self.totals["trace_steps_checked_in_coq"] = self.totals.get("trace_steps_checked_in_coq", 0) + len(out)
+        return "[" + ";\n".join(out) + "]"
 
     def shrink(self, case, fails):
         """drop steps (from the end first) while the history still fails"""
